@@ -5,7 +5,11 @@ M9 (second half) — how `matmul` / `**` marshal their operands to BLAS.
 Transcribed from
   include/adept/matmul.h   check_inner_dimensions(_sqr), blas_vector_start, matmul_ (matrix·vector,
                            matrix·matrix, vector·matrix), matmul_symmetric (vector / matrix right-hand side),
-                           matmul_band (vector / matrix right-hand side), the swap-and-transpose overloads
+                           matmul_band (vector / matrix right-hand side), the swap-and-transpose overloads,
+                           and the recording loops that follow the BLAS calls (one statement per result element:
+                           `gemvRecord`, `gemmRecord`, `bandVRecord`; with the copies of doubly strided operands:
+                           `matmulMMTape`, `matmulMVTape`, `matmulVMTape`, `matmulBandVTape`, `matmulVBandTape`)
+  include/adept/Stack.h    push_derivative_dependence (`pushDep`, `pushDependence`)
   include/adept/Array.h    is_row_contiguous, is_column_contiguous, pack_row_major_, T()
   adept/cppblas.cpp        cppblas_gemm / gemv / symm / symv / gbmv  (row-major → column-major rewriting)
   include/adept/SpecialMatrix.h   SymmEngine::index, BandEngine::index, get_scalar (zero test)
@@ -415,5 +419,152 @@ def gemmOps (lAct rAct : Bool) (L R : Mat α) (i j : Nat) : List (α × Buf × I
       (fun p => (p.1, L.buf, p.2)) else []) ++
   (if rAct then (pushDep (R.v.base + (j : Int) * R.v.o1) L.mem (L.v.base + (i : Int) * L.v.o0) R.v.d0 R.v.o0 L.v.o1).map
       (fun p => (p.1, R.buf, p.2)) else [])
+
+/-! ### the statements an active product records
+
+After the BLAS call `matmul_` records one statement per result element (`push_derivative_dependence` per active
+operand, then `push_lhs`).  Gradient indices are kept symbolically as `Ptr`s: the gradient *block* and the offset in it.
+  * `L` / `R`: the block registered for the storage of the left / right operand's parent array; since
+    `gradient_index()` of a view is the index of its `data()` pointer, the offset of an element is its storage cell;
+  * `T`: the indices registered after the operands were built, i.e. by the arrays created inside `matmul`
+    (`promote_array`'s conversions, the copies of doubly strided operands, a result array abandoned for the recursive
+    call), in allocation order (`Stack::do_register_gradients` with an empty gap list hands out consecutive blocks);
+  * `C`: the block of the result array that is returned, offset = its storage cell. -/
+
+structure Stmt (α : Type) where
+  lhs : Ptr
+  ops : List (α × Ptr)
+
+/-- the gradient side of a dense operand: whether it is active, and the gradient index of cell 0 of its buffer -/
+structure Grad where
+  act : Bool
+  blk : Buf
+  g0 : Int := 0
+deriving Repr, DecidableEq
+
+/-- gradient index of the storage cell `cell` of the operand's buffer -/
+def Grad.idx (g : Grad) (cell : Int) : Ptr := ⟨g.blk, g.g0 + cell⟩
+
+/-- `Stack::push_derivative_dependence(rhs_index, multiplier, n, index_stride, multiplier_stride)` with the gradient
+    index in block `blk`; `mult`/`m0`: the memory the multiplier pointer points into and its cell -/
+def pushDependence (blk : Buf) (rhsIndex : Int) (mult : Int → α) (m0 : Int) (n : Nat) (indexStride multStride : Int) :
+    List (α × Ptr) :=
+  (pushDep rhsIndex mult m0 n indexStride multStride).map (fun p => (p.1, (⟨blk, p.2⟩ : Ptr)))
+
+/-- the value of a statement's right-hand side for an assignment `d` of differentials to gradient indices -/
+def Stmt.diff (s : Stmt α) (d : Ptr → α) : α := s.ops.foldr (fun p acc => p.1 * d p.2 + acc) 0
+
+/-- one step of the tangent-linear (forward-mode) sweep `Stack::compute_tangent_linear` performs over the recorded
+    statements: `gradient[lhs] = Σ multiplier·gradient[index]` -/
+def fwdStep (d : Ptr → α) (s : Stmt α) : Ptr → α := fun p => if p = s.lhs then s.diff d else d p
+
+/-- the tangent-linear sweep over a list of statements, starting from the differentials `d` -/
+def fwd (stmts : List (Stmt α)) (d : Ptr → α) : Ptr → α := stmts.foldl fwdStep d
+
+/-- the recording loop of `matmul_(const Array<2>&, const Array<1>&)` (matmul.h:102-126):
+    `left_index = left.gradient_index()`, `right_index = right.gradient_index()`, `n = right.dimension(0)`;
+    per row `i` of `ans`: `push_derivative_dependence(left_index+i*left_offset[0], right.const_data(), n, left_offset[1],
+    right_offset[0])` if the left operand is active, `push_derivative_dependence(right_index, left.const_data()+
+    i*left_offset[0], n, right_offset[0], left_offset[1])` if the right one is, `push_lhs(ans_index + i*ans.offset(0))` -/
+def gemvRecord (gl gr : Grad) (L : Mat α) (x : Vec α) (ans : View1) : List (Stmt α) :=
+  if gl.act || gr.act then
+    (List.range ans.d).map (fun (i : Nat) =>
+      { ops :=
+          (if gl.act then pushDependence gl.blk (gl.g0 + L.v.base + (i : Int) * L.v.o0) x.mem x.v.base x.v.d L.v.o1 x.v.o else []) ++
+          (if gr.act then pushDependence gr.blk (gr.g0 + x.v.base) L.mem (L.v.base + (i : Int) * L.v.o0) x.v.d x.v.o L.v.o1 else []),
+        lhs := ⟨.C, ans.base + (i : Int) * ans.o⟩ })
+  else []
+
+/-- the recording loop of `matmul_(const Array<2>&, const Array<2>&)` (matmul.h:193-221), `n = right.dimension(0)`;
+    per `(i,j)`: `push_derivative_dependence(left_index+i*left_offset[0], right.const_data()+j*right_offset[1], n,
+    left_offset[1], right_offset[0])`, `push_derivative_dependence(right_index+j*right_offset[1], left.const_data()+
+    i*left_offset[0], n, right_offset[0], left_offset[1])`, `push_lhs(ans_index + i*ans.offset(0) + j*ans.offset(1))` -/
+def gemmRecord (gl gr : Grad) (L R : Mat α) (ans : View2) : List (Stmt α) :=
+  if gl.act || gr.act then
+    pairs ans.d0 ans.d1 (fun (i j : Nat) =>
+      { ops :=
+          (if gl.act then pushDependence gl.blk (gl.g0 + L.v.base + (i : Int) * L.v.o0) R.mem (R.v.base + (j : Int) * R.v.o1)
+              R.v.d0 L.v.o1 R.v.o0 else []) ++
+          (if gr.act then pushDependence gr.blk (gr.g0 + R.v.base + (j : Int) * R.v.o1) L.mem (L.v.base + (i : Int) * L.v.o0)
+              R.v.d0 R.v.o0 L.v.o1 else []),
+        lhs := ⟨.C, ans.base + (i : Int) * ans.o0 + (j : Int) * ans.o1⟩ })
+  else []
+
+/-- `BandEngine::get_row_range` as `matmul_band` restates it: `j_start = i<LDiags ? 0 : i-LDiags` -/
+def bandJStart (kl i : Nat) : Nat := if i < kl then 0 else i - kl
+/-- `j_end_plus_1 = i+UDiags+1>left_dim ? left_dim : i+UDiags+1` -/
+def bandJEnd (ku dim i : Nat) : Nat := if i + ku + 1 > dim then dim else i + ku + 1
+
+/-- the recording loops of `matmul_band(…, const Array<1,T,RIsActive>& right)` (matmul.h:338-372) for an active vector:
+    per row `i` the in-band columns `j_start … j_end_plus_1-1`, `n = j_end_plus_1 - j_start`,
+    `index_start = i*left_offset + j_start`, `index_stride = 1` (ROW_MAJOR) or `i + j_start*left_offset`, `left_offset`
+    (COL_MAJOR): `push_derivative_dependence(right_index + j_start*right.offset(0), left_ptr+index_start, n,
+    right.offset(0), index_stride)`, `push_lhs(ans_index + i*ans.offset(0))` -/
+def bandVRecord (b : Band α) (gr : Grad) (x : Vec α) (ans : View1) : List (Stmt α) :=
+  if gr.act then
+    (List.range ans.d).map (fun (i : Nat) =>
+      let jStart := bandJStart b.kl i
+      let n := bandJEnd b.ku b.dim i - jStart
+      let indexStart : Int := if b.rowMajor then (i : Int) * b.off + (jStart : Int) else (i : Int) + (jStart : Int) * b.off
+      let indexStride : Int := if b.rowMajor then 1 else b.off
+      { ops := pushDependence gr.blk (gr.g0 + x.v.base + (jStart : Int) * x.v.o) b.mem (b.base + indexStart) n x.v.o indexStride,
+        lhs := ⟨.C, ans.base + (i : Int) * ans.o⟩ })
+  else []
+
+/-- element-wise evaluation of an ACTIVE operand that is not an array (`promote_array`: `Array<2,T,true>(expression)`,
+    `Array<2,T,true>(special matrix)`) or of a doubly strided array into the fresh row-major `d0 × d1` array with view
+    `c` whose gradient block starts at `T+t`: one statement per element in row-major order, `src i k` its operations
+    (`[(2, gidx A[i,k])]` for `2.0*A`, `[(1,·),(1,·)]` for `A+A`, `[(1,·)]` for a copy, `[]` for a structural zero) -/
+def convRecord (c : View2) (t : Int) (d0 d1 : Nat) (src : Nat → Nat → List (α × Ptr)) : List (Stmt α) :=
+  pairs d0 d1 (fun (i k : Nat) => { lhs := ⟨.T, t + c.addr i k⟩, ops := src i k })
+
+/-- the same for a vector (`Array<1,T,true>(expression)`): contiguous, `d` gradient indices from `T+t` -/
+def convRecord1 (t : Int) (d : Nat) (src : Nat → List (α × Ptr)) : List (Stmt α) :=
+  (List.range d).map (fun (i : Nat) => { lhs := ⟨.T, t + (i : Int)⟩, ops := src i })
+
+section Copies
+variable [One α]
+
+/-- `Array<2,T,A> left_; left_ = left;` for an active operand: one statement per element, in row-major order of the
+    logical elements, `left_[i,k] = 1·left[i,k]`; `c` is the fresh array's view, `t` the offset of its gradient block in `T` -/
+def copyRecord (g : Grad) (A : Mat α) (c : View2) (t : Int) : List (Stmt α) :=
+  if g.act then convRecord c t A.v.d0 A.v.d1 (fun (i k : Nat) => [((1 : α), g.idx (A.v.addr i k))])
+  else []
+
+/-- the gradient side of `prep`: gradient description of the operand handed on, statements of the copy, next free `T` offset.
+    (`Storage<Type>(data_vol, IsActive)` registers `data_vol = offset(0)*dimension(0)` indices for an active array only) -/
+def prepRecord (pw : Nat) (g : Grad) (A : Mat α) (t : Int) : Grad × List (Stmt α) × Int :=
+  if needsCopy A.v then
+    let c := (copyMat pw A).v
+    ({ act := g.act, blk := .T, g0 := t }, copyRecord g A c t, if g.act then t + c.o0 * (c.d0 : Int) else t)
+  else (g, [], t)
+
+/-- everything `matmul_(const Array<2>&, const Array<2>&)` records when the checks pass; `t` = next free `T` offset on entry -/
+def matmulMMTape (pw : Nat) (gl gr : Grad) (t : Int) (L R : Mat α) : List (Stmt α) :=
+  let pl := prepRecord pw gl L t
+  let pr := prepRecord pw gr R pl.2.2
+  let o := gemmDense pw (prep pw L) (prep pw R)
+  pl.2.1 ++ pr.2.1 ++ gemmRecord pl.1 pr.1 o.l o.r o.ans.v
+
+/-- everything `matmul_(const Array<2>&, const Array<1>&)` records.  `Array<1,T,is_active> ans(left.dimension(0))` is
+    constructed BEFORE the contiguity test, so when the left operand is copied the abandoned outer `ans` holds
+    `left.dimension(0)` gradient indices while `matmul_(left_, right)` runs -/
+def matmulMVTape (pw : Nat) (gl gr : Grad) (t : Int) (L : Mat α) (x : Vec α) : List (Stmt α) :=
+  let t1 := if needsCopy L.v && (gl.act || gr.act) then t + (L.v.d0 : Int) else t
+  let pl := prepRecord pw gl L t1
+  let o := gemvDense (prep pw L) x
+  pl.2.1 ++ gemvRecord pl.1 gr o.l x o.ans.v
+
+/-- `matmul_(const Array<1>& left, const Array<2>& right) = matmul_(right.T(), left)` -/
+def matmulVMTape (pw : Nat) (gl gr : Grad) (t : Int) (x : Vec α) (R : Mat α) : List (Stmt α) :=
+  matmulMVTape pw gr gl t R.T x
+
+end Copies
+
+/-- what `matmul_band(…, const Array<1>& right)` records (passive band matrix) -/
+def matmulBandVTape (b : Band α) (gr : Grad) (x : Vec α) : List (Stmt α) := bandVRecord b gr x (bandVCore b x).ans.v
+
+/-- vector · band: `matmul_band<RIsActive>(right…, new_r_order, UDiags, LDiags, …, left)` -/
+def matmulVBandTape (gl : Grad) (x : Vec α) (b : Band α) : List (Stmt α) := matmulBandVTape b.T gl x
 
 end Adept.Matmul
